@@ -26,6 +26,7 @@
 #define _INTEGRATOR_BS_H
 void reb_integrator_bs_part1(struct reb_simulation* r);          ///< Internal function used to call a specific integrator
 void reb_integrator_bs_part2(struct reb_simulation* r);          ///< Internal function used to call a specific integrator
+void reb_integrator_bs_init(struct reb_simulation* r);              ///< Internal function. Deletes the N-body ode if the particle number changed.
 void reb_integrator_bs_synchronize(struct reb_simulation* r);    ///< Internal function used to call a specific integrator
 void reb_integrator_bs_reset(struct reb_simulation* r);          ///< Internal function used to call a specific integrator
 void reb_integrator_bs_reset_struct(struct reb_integrator_bs* ri_bs);
